@@ -40,6 +40,20 @@ def check(run):
                 f["class"] = fc.LZ4_CLASS
                 f["algorithm"] = "lz4"
             findings.append(f)
+    # the notation clause on its own: LengthOf / Write / Read of every primitive notation on value sweeps (several of these
+    # functions - the vint lengths, for instance - are not reachable through frames)
+    prims = []
+    if "harness" not in fails:
+        prims, perr = fc.run_harness(run, "prims", 0)
+        if perr:
+            broken.append(perr)
+        elif not prims:
+            broken.append("harness-frame prims printed no record")
+    for r in prims:
+        if r.get("ok") is False:
+            findings.append({"id": r["id"], "kind": "notation", "notation": r.get("notation"), "value": r.get("value"), "length_fn": r.get("length_fn"),
+                             "written": r.get("written"), "what": "primitive notation [%s], value %s: %s" % (r.get("notation"), r.get("value"), r.get("why"))})
+    run.coverage["primitive_notation_cases"] = len(prims)
     sel, skipped = fc.select_records(valid, run.tier)
     cases = []
     for r in sel:
